@@ -255,9 +255,8 @@ def primitives(ctx, spec):
             e = flow.strip(arg(an, bb, t, 0))
             if e[0] == "agg" and e[1].endswith("ops::Range::Range"):
                 f = dict(e[2])
-                s0, e0 = flow.strip(f["start"]), flow.strip(f["end"])
-                if s0[0] == "const" and e0[0] == "const":
-                    rng = (s0[2], e0[2])
+                if int_value(f["start"]) is not None and int_value(f["end"]) is not None:
+                    rng = (int_value(f["start"]), int_value(f["end"]))
         key = "C09/primitives-shape/%s/groups" % fn
         ok = rng is not None and rng[0] == 0 and rng[1] == groups
         ctx.check(ok, R, key, b.loc,
